@@ -35,7 +35,7 @@ def write_by_path(prog, nptdms, version, tmp):
             with nptdms.TdmsWriter(p, mode=mode, version=version, index_file=True) as w:
                 for seg in sess:
                     w.write_segment(gw.to_python(seg, nptdms))
-            mode = "a"
+            mode = "a+" if mode != "a+" else "a"
     except Exception as ex:  # noqa
         return None, None, ex
     return open(p, "rb").read(), open(p + "_index", "rb").read(), None
